@@ -7,3 +7,7 @@ import PMH.Props.C03
 #print axioms PMH.C03.smh_collision_count
 #print axioms PMH.Coll.collision_count_regs
 #print axioms PMH.CS.collision_prob_eq_jaccard_gen
+#print axioms PMH.C03.smh2_collision_count
+#print axioms PMH.C03.smh2_collision_count_regs
+#print axioms PMH.C03.smh2_position_law
+#print axioms PMH.SMH2Coll.ex_collision_third
